@@ -357,6 +357,10 @@ def run(ctx):
     def apply_real(kind, obj, op, p, ename):
         enc = ENC[ename]
         mk = lambda s: bnp.as_encoded_array(s, enc) if ename != "ascii" else bnp.as_encoded_array(s)
+        if op in ("row_int", "elem", "col_int", "int", "row_int_col_slice") and sum(v for v in p.values() if isinstance(v, int) and not isinstance(v, bool)) % 3 == 0:
+            # row / column numbers as NumPy integers (what argmax, nonzero, a loop over arange give) instead of Python ints
+            p = {k_: (np.int64(v) if isinstance(v, int) and not isinstance(v, bool) else v) for k_, v in p.items()}
+            ctx.count("numpy_integer_indices")
         if kind == "ragged":
             if op == "row_int":
                 return obj[p["i"]]
